@@ -13,7 +13,9 @@
 (*                                    list_immutable_files_to_process,     *)
 (*                                    fetch_immutables_cached,             *)
 (*                                    process_immutables, update_cache,    *)
-(*                                    compute_merkle_tree                  *)
+(*                                    compute_merkle_tree,                 *)
+(*                                    compute_digests_for_range,           *)
+(*                                    list_..._to_process_for_range        *)
 (*     digesters/immutable_digester.rs   compute_immutables_digests        *)
 (*     digesters/cache/json_provider.rs  get / store (keyed by file name)  *)
 (*     signable_builder/cardano_database.rs  compute_protocol_message      *)
@@ -91,51 +93,88 @@ ToProcess(d, b) ==
 (* the cache key of JsonImmutableFileDigestCacheProvider: the file name *)
 CacheKey(n) == n
 
-(* compute_merkle_tree / compute_protocol_message(beacon b) on disk d with cache content  *)
-(* cm (a function file name -> digest), cache consulted or not                            *)
-OutcomeOf(d, cm, b, useCache) ==
-    LET tp == ToProcess(d, b)
-        fs == FilesOf(d, tp.src)
+(* list_immutable_files_to_process_for_range: no beacon file is required, the list may be  *)
+(* empty                                                                                  *)
+ToProcessRange(d, lo, hi) ==
+    LET la == ListAll(d) IN
+    IF ~la.ok THEN la
+    ELSE [ok |-> TRUE, src |-> la.src,
+          files |-> SelectSeq(la.files, LAMBDA n : lo <= n.num /\ n.num <= hi)]
+
+(* process_immutables + update_cache on the listed files tp, disk d, cache content cm (a  *)
+(* function file name -> digest), cache consulted or not: the digests in file order and   *)
+(* the cache afterwards (only the newly computed entries are stored, each under the name  *)
+(* of its own file)                                                                       *)
+DigestsOf(d, cm, tp, useCache) ==
+    LET fs == FilesOf(d, tp.src)
         dg(n) == IF useCache /\ CacheKey(n) \in DOMAIN cm
                  THEN cm[CacheKey(n)]                          \* fetch_immutables_cached
                  ELSE Digest(fs[n])                            \* compute_raw_hash
-    IN  IF ~tp.ok THEN [ok |-> FALSE, root |-> <<>>, newc |-> cm]
-        ELSE [ok   |-> TRUE,
-              root |-> Root([i \in DOMAIN tp.files |-> dg(tp.files[i])]),
-              newc |-> IF useCache                             \* update_cache
-                       THEN [k \in DOMAIN cm \cup {CacheKey(n) : n \in Range(tp.files)} |->
-                               IF k \in DOMAIN cm THEN cm[k]
-                               ELSE Digest(fs[CHOOSE n \in Range(tp.files) : CacheKey(n) = k])]
-                       ELSE cm]
+    IN  [digs |-> [i \in DOMAIN tp.files |-> dg(tp.files[i])],
+         newc |-> IF useCache                                  \* update_cache
+                  THEN [k \in DOMAIN cm \cup {CacheKey(n) : n \in Range(tp.files)} |->
+                          IF k \in DOMAIN cm THEN cm[k]
+                          ELSE Digest(fs[CHOOSE n \in Range(tp.files) : CacheKey(n) = k])]
+                  ELSE cm]
+
+(* compute_merkle_tree / compute_protocol_message(beacon b) *)
+OutcomeOf(d, cm, b, useCache) ==
+    LET tp == ToProcess(d, b) IN
+    IF ~tp.ok THEN [ok |-> FALSE, root |-> <<>>, newc |-> cm]
+    ELSE LET r == DigestsOf(d, cm, tp, useCache) IN
+         [ok |-> TRUE, root |-> Root(r.digs), newc |-> r.newc]
+
+(* compute_digests_for_range(lo ..= hi): the (file name, digest) entries of the range; it *)
+(* reads and writes the same cache                                                        *)
+RangeOutcomeOf(d, cm, lo, hi, useCache) ==
+    LET tp == ToProcessRange(d, lo, hi) IN
+    IF ~tp.ok THEN [ok |-> FALSE, root |-> <<>>, newc |-> cm]
+    ELSE LET r == DigestsOf(d, cm, tp, useCache) IN
+         [ok |-> TRUE, root |-> <<"digests", [i \in DOMAIN tp.files |-> <<tp.files[i], r.digs[i]>>]>>,
+          newc |-> r.newc]
+
+(* one step of a history: [op ("tree" | "range"), lo, hi, cache]; for "tree" hi is the beacon *)
+StepOutcome(d, cm, st) ==
+    IF st.op = "tree" THEN OutcomeOf(d, cm, st.hi, st.cache)
+    ELSE RangeOutcomeOf(d, cm, st.lo, st.hi, st.cache)
 
 Outcome(node, b, useCache) == OutcomeOf(disk[node], cache[node], b, useCache)
 
-Compute(node, b, useCache) ==
-    LET o == Outcome(node, b, useCache) IN
-    /\ results' = results \cup {[node |-> node, beacon |-> b, cache |-> useCache,
+Record(node, op, lo, hi, useCache, o) ==
+    /\ results' = results \cup {[node |-> node, op |-> op, lo |-> lo, beacon |-> hi, cache |-> useCache,
                                  ok |-> o.ok, root |-> o.root]}
     /\ cache' = [cache EXCEPT ![node] = o.newc]
     /\ steps' = steps + 1
     /\ UNCHANGED disk
 
+Compute(node, b, useCache) ==
+    Record(node, "tree", 0, b, useCache, Outcome(node, b, useCache))
+
+ComputeRange(node, lo, hi, useCache) ==
+    Record(node, "range", lo, hi, useCache, RangeOutcomeOf(disk[node], cache[node], lo, hi, useCache))
+
 -----------------------------------------------------------------------------
 (* The property (C12), independent of the code.                             *)
 
-(* names and contents of the immutable files numbered up to the beacon *)
-Covered(d, b) == {[name |-> n, cid |-> d.imm[n]] : n \in {m \in DOMAIN d.imm : m.num <= b}}
-CoveredOf(r)  == Covered(disk[r.node], r.beacon)
+(* names and contents of the immutable files numbered up to the beacon (of the range) *)
+CoveredIn(d, lo, hi) == {[name |-> n, cid |-> d.imm[n]] :
+                            n \in {m \in DOMAIN d.imm : lo <= m.num /\ m.num <= hi}}
+Covered(d, b) == CoveredIn(d, 0, b)
+CoveredOf(r)  == CoveredIn(disk[r.node], r.lo, r.beacon)
 
 Excused(r) == ExcuseDecoy /\ disk[r.node].decoy = "first" /\ disk[r.node].entry = "db"
 Judged     == {r \in results : r.ok /\ ~Excused(r)}
 
-(* the root is a function of the covered files only: whatever the layout, other     *)
-(* files, files beyond the beacon, cache history                                     *)
-Determined == \A r, s \in Judged : CoveredOf(r) = CoveredOf(s) => r.root = s.root
+(* the root (the digests of a range) is a function of the covered files only: whatever  *)
+(* the layout, other files, files beyond the beacon, cache history                      *)
+Determined == \A r, s \in Judged :
+                 r.op = s.op /\ CoveredOf(r) = CoveredOf(s) => r.root = s.root
 
 (* without a cache, it changes whenever a byte of a covered file changes or a covered  *)
 (* file is missing: T is S with some files changed and / or missing                     *)
 NamesOf(S)     == {x.name : x \in S}
 Perturbs(S, T) == S # T /\ NamesOf(T) \subseteq NamesOf(S)
 Sensitive  == \A r, s \in Judged :
-                 ~r.cache /\ ~s.cache /\ Perturbs(CoveredOf(r), CoveredOf(s)) => r.root # s.root
+                 r.op = s.op /\ ~r.cache /\ ~s.cache /\ Perturbs(CoveredOf(r), CoveredOf(s))
+                    => r.root # s.root
 =============================================================================
